@@ -700,16 +700,16 @@ def bndOf (ps : Nat × Nat) (c o : Pt) : Bnd :=
   (((sliceBounds ps.1 c.1 o.1).1, (sliceBounds ps.2 c.2 o.2).1), ((sliceBounds ps.1 c.1 o.1).2, (sliceBounds ps.2 c.2 o.2).2))
 
 theorem bounds_eq (ps : Nat × Nat) (centres offs : List Pt) :
-    Np.roundBounds (Np.cornerGrid (centres + Np.halfPixel ps) (some offs)
-        ((-(Np.tdiv ps.1 2), -(Np.tdiv ps.2 2)), (Np.tdiv ps.1 2, Np.tdiv ps.2 2))) =
+    Np.highFromLow (Np.roundBounds (Np.cornerGrid (centres + Np.halfPixel ps) (some offs)
+        ((-(Np.tdiv ps.1 2), -(Np.tdiv ps.2 2)), (Np.tdiv ps.1 2, Np.tdiv ps.2 2)))) ps =
       (List.range centres.length).map fun i => (List.range offs.length).map fun j =>
         bndOf ps (getPt centres i) (getPt offs j) := by
-  unfold Np.roundBounds Np.cornerGrid
+  unfold Np.highFromLow Np.roundBounds Np.cornerGrid
   simp only [listPt_add, List.map_map, Option.getD_some]
   rw [map_eq_range_getPt centres]
   apply List.map_congr_left; intro i _
   simp only [Function.comp]
-  rw [map_eq_range_getPt offs, List.map_map]
+  rw [map_eq_range_getPt offs, List.map_map, List.map_map]
   apply List.map_congr_left; intro j _
   simp only [Function.comp, bndOf, sliceBounds, Np.roundPt, pt_add, Np.halfPixel, tdiv2]
 
